@@ -1,8 +1,24 @@
 from vp_check import Ob
 
 META = dict(
-    not_decided=['PLACEHOLDER'],
-    assumptions=['PLACEHOLDER'],
+    not_decided=[
+        'beltECBEncr/beltECBDecr, brngCTRRand, brngHMACRand: their headers carry NO "buffers may overlap" remark (brngHMACRand even forbids buf/iv overlap), so they are outside the quantifier of C11 and are not checked',
+        'beltFMTEncr/beltFMTDecr ("all buffers except iv and [count]dest may overlap"): not checked - 64-bit multiplications/divisions by a symbolic modulus stall every back end',
+        'low-level remarks "key and state may overlap" (belt*Start, beltKRPStart, beltFMTStart) and "mac/hash and state may overlap if no continuation follows" (beltMACStepG/G2, beltHashStepG/G2, beltHMACStepG2, bashHashStepG): not checked',
+        'DER typed decoders with val inside der (derTUINTDec/Dec2, derTBITDec/Dec2, derTOCTDec/Dec2, derTPSTRDec) and derTPSTREnc: not checked (derEnc, derTUINTEnc, derTBITEnc are)',
+        'lengths above the stated bounds; in the quick tier only the listed edge shifts (plus one complete sweep of the shift for one length of beltCBCEncr, beltCFBEncr, beltCTR, beltBDEEncr; memMove, memJoin, derEnc, key expansion are swept completely); the thorough tier enumerates EVERY delta in [-(len+16), len+16] for every listed length',
+        'shift obligations use a 32-octet key; 16/24-octet keys appear in the *_aux / key_in_dest placements and in beltMAC/beltHMAC/beltKRP',
+        'beltKWPUnwrap with the expected header lying inside src (the token): only in the thorough tier (c11_beltKWPUnwrap_hdr_anysrc), a counterexample needs a forged token and cannot be replayed with the real cipher',
+        'beltDWPWrap/beltCHEWrap with dest intersecting mac: excluded by belt.h, not generated (and assumed away in the harness)',
+        'only the 64-bit little-endian configuration',
+    ],
+    assumptions=[
+        'belt block cipher replaced by an uninterpreted function/bijection (stubs/belt_block_uf_e.c, stubs/belt_block_uf.c), bash-f by stubs/bashf_uf.c, the GF(2^128) product beltPolyMul by an uninterpreted function (harness/C11/stub_polymul_uf.c): an equality of two runs proved under them holds for the real primitives; counterexamples are replayed natively against the real library',
+        'memWipe replaced by a no-op under CBMC (harness/C11/stub_memwipe.c): it only wipes the private state blob before it is freed',
+        'every argument buffer is a window of ONE static arena (private places included) because beltKWPWrap and memJoin compare argument pointers; the reference run uses a second arena with pairwise disjoint windows',
+        'DWP/CHE/MAC/hash/KRP obligations are built with exact-size blobs (BEE2_VERIF_BLOB_EXACT) so that the state struct stays field-sensitive and the "filled" counters constant-propagate; cipher-mode and KWP obligations use the normal 1024-octet blob pages',
+        'inputs are read from the arena before the call (copied aside); an auxiliary input placed inside src simply shares those octets with src',
+    ],
 )
 
 MEM = ('src/core/mem.c', {'remove': ['memWipe']})
@@ -63,27 +79,26 @@ def cipher6(fn, srcfile, lens, full_len, tier, uf, steps, maxn=48, aux_lens=None
                   unwind_rules=[(r'^(belt)\w+Step\w*\.\d+$', maxn // 16 + 4), (r'^c11_cp\.\d+$', L.asz + 2)], funcs=[fn] + steps)
     obs = [Ob(name='c11_%s_shift' % fn, instances=inst,
               bound='count in %s; dest = src + delta, delta in {-(count+16), -count, -17, -16, -15, -1, 0, 1, 15, 16, 17, count, count+16}%s; key (32 octets) and iv outside both: %d concrete placements, each decided for ALL contents of the arena (data, key, iv)'
-                    % (list(lens), (' and EVERY delta in [-(count+16), count+16] for count = %d' % full_len if full_len is not None else ' (complete delta range only in the thorough tier: 6-8 s per placement)') if q else ' - thorough: EVERY delta in [-(count+16), count+16] for every count', len(inst)),
+                    % (list(lens), (' and EVERY delta in [-(count+16), count+16] for count = %d' % full_len if full_len is not None else ' (complete delta range for this function only in the thorough tier)') if q else ' - thorough: EVERY delta in [-(count+16), count+16] for every count', len(inst)),
               **common)]
     # auxiliary inputs inside / across the output region (and inside src)
     inst = []
     if aux_lens is None: aux_lens = lens[-2:-1] if q else lens[:1] + lens[-1:]
     for n in aux_lens:
-        for d in ([0, 16, -5] if q else [0, 1, -1, 16, -16, -5, 5, n, -n, n + 16]):
+        for d in ([0, 16] if q else [0, 1, -1, 16, -16, -5, 5, n, -n, n + 16]):
             do = L.s0 + d
-            ivs = [('iD0', do), ('iDe', do + n - 16), ('iDm8', do - 8), ('iDp', do + n - 8), ('iS0', L.s0)]
-            if not q: ivs += [('iD1', do + 1), ('iSe', L.s0 + n - 16), ('iSm8', L.s0 - 8)]
+            ivs = [('iD0', do), ('iDm8', do - 8), ('iDp', do + n - 8)]
+            if not q: ivs += [('iDe', do + n - 16), ('iS0', L.s0), ('iD1', do + 1), ('iSe', L.s0 + n - 16), ('iSm8', L.s0 - 8)]
             for tag, io in ivs:
                 inst.append(('a_%d_%s_%s' % (n, sg(d), tag), '%d, %d, %d, %d, %d, 32' % (n, L.s0, do, L.keyp, io)))
-            keys = [('kD0', do, 16), ('kDp', do + n - 8, 32), ('kDm', do - 24, 32), ('kS0', L.s0, 16)]
-            if not q: keys += [('kDe24', do + n - 24, 24), ('kD0_32', do, 32)]
+            keys = [('kD0', do, 16), ('kDp', do + n - 8, 32)]
+            if not q: keys += [('kDm', do - 24, 32), ('kS0', L.s0, 16), ('kDe24', do + n - 24, 24), ('kD0_32', do, 32)]
             for tag, ko, kl in keys:
                 inst.append(('a_%d_%s_%s' % (n, sg(d), tag), '%d, %d, %d, %d, %d, %d' % (n, L.s0, do, ko, L.ivp, kl)))
             # key and iv both inside dest (iv first, key right after it, possibly hanging over the end of dest)
             inst.append(('a_%d_%s_kiD' % (n, sg(d)), '%d, %d, %d, %d, %d, 16' % (n, L.s0, do, do + 16, do)))
     obs.append(Ob(name='c11_%s_aux' % fn, instances=inst,
-                  bound='count in %s x delta in %s x {iv at dest+0, dest+count-16, dest-8 (across the start), dest+count-8 (across the end), src+0; key (16..32 octets) at dest+0, across the end, across the start, src+0; iv at dest+0 and key at dest+16}: %d concrete placements, all arena contents symbolic'
-                        % (list(aux_lens), 'quick {0, 16, -5}' if q else '{0, +-1, +-16, +-5, +-count, count+16}', len(inst)),
+                  bound=('count in %s x delta in %s ' % (list(aux_lens), 'quick {0, 16}' if q else '{0, +-1, +-16, +-5, +-count, count+16}')) + 'x {iv at dest+0, dest-8 (across the start), dest+count-8 (across the end); key[16] at dest+0, key[32] across the end; iv at dest+0 together with key at dest+16%s}' % ('' if q else '; thorough adds iv at dest+1, dest+count-16, src+0, src+count-16, src-8 and key across the start, at src+0, key[24] at the end, key[32] at dest+0') + ': %d concrete placements, all arena contents symbolic' % len(inst),
                   **common))
     return obs
 
@@ -106,7 +121,8 @@ def kwp(tier):
     for unwrap in (False, True):
         fn = 'beltKWPUnwrap' if unwrap else 'beltKWPWrap'
         outlen = (lambda n: n - 16) if unwrap else (lambda n: n + 16)
-        lens = ([32, 33, 48] if unwrap else [16, 17, 32]) if q else (list(range(32, 49)) if unwrap else list(range(16, 41)))
+        lens = ([32, 33] if unwrap else [16, 17]) if q else ([32, 33, 40, 47, 48] if unwrap else [16, 17, 24, 31, 32, 33, 40])
+        big = 48 if unwrap else 32    # quick: one more length with a few shifts only
         common = dict(harness=H + fn + '.c', defs=['MAXN=%d' % maxn, 'ASZ=%d' % L.asz, 'RSZ=%d' % (2 * maxn + 176)],
                       srcs=BELT_CORE + [BLOCK, B + 'belt_kwp.c', B + 'belt_wbl.c'], stub_files=UFE + WIPE, stubs=['belt_block_uf_e', 'memWipe -> no-op'],
                       unwind=maxn + 40, timeout=300, mem_gb=6, cbmc_extra=FS,
@@ -116,19 +132,22 @@ def kwp(tier):
         for n in lens:
             for d in (edge_deltas(n) if q else all_deltas(n)):
                 sh_h.append(('s_%d_%s' % (n, sg(d)), '%d, %d, %d, %d, %d, 32' % (n, L.s0, L.s0 + d, hdrp, L.keyp)))
-            for d in ([0, 1, -16, n + 16] if q else edge_deltas(n)):
+            for d in ([0, 1, -16] if q and n == lens[0] else [] if q else edge_deltas(n)):
                 sh_0.append(('z_%d_%s' % (n, sg(d)), '%d, %d, %d, %d, %d, 32' % (n, L.s0, L.s0 + d, NOHDR, L.keyp)))
+        if q:
+            for d in [0, 1, -1, 16, -16]:
+                sh_h.append(('s_%d_%s' % (big, sg(d)), '%d, %d, %d, %d, %d, 32' % (big, L.s0, L.s0 + d, hdrp, L.keyp)))
         rng = 'delta in {-(count+16), -count, -17, -16, -15, -1, 0, 1, 15, 16, 17, count, count+16}' if q else 'EVERY delta in [-(count+16), count+16]'
         obs.append(Ob(name='c11_%s_shift' % fn, instances=sh_h,
-                      bound='count in %s; dest = src + delta, %s; header and key (32 octets) outside: %d concrete placements, all arena contents symbolic' % (lens, rng, len(sh_h)), **common))
+                      bound='count in %s; dest = src + delta, %s; header and key (32 octets) outside%s: %d concrete placements, all arena contents symbolic' % (lens, rng, (' plus count = %d x delta in {0, +-1, +-16}' % big) if q else '', len(sh_h)), **common))
         obs.append(Ob(name='c11_%s_shift_nohdr' % fn, instances=sh_0,
-                      bound='header == 0 (zero header); count in %s; dest = src + delta, delta in %s: %d concrete placements, all arena contents symbolic'
-                            % (lens, '{0, 1, -16, count+16}' if q else 'the 13 edge values', len(sh_0)), **common))
+                      bound='header == 0 (zero header); count in %s (quick: the first one only); dest = src + delta, delta in %s: %d concrete placements, all arena contents symbolic'
+                            % (lens, '{0, 1, -16}' if q else 'the 13 edge values', len(sh_0)), **common))
         # header / key inside or across the output region; placements with header inside src separately
         # (beltKWPWrap answers ERR_BAD_INPUT for them although belt.h lists no such exception)
         hdst, kdst, hsrc = [], [], []
-        alens = (lens[:1] + lens[-1:]) if q else lens[:2] + lens[-2:]
-        adel = lambda n: [0, 16, -16, n + 16] if q else [0, 1, -1, 16, -16, 5, -5, n + 16, -(n + 16)]
+        alens = [lens[0], big] if q else lens[:2] + lens[-2:]
+        adel = lambda n: ([0, 16, -16] + ([n + 16] if unwrap else [])) if q else [0, 1, -1, 16, -16, 5, -5, n + 16, -(n + 16)]
         for n in alens:
             o = outlen(n)
             for d in adel(n):
@@ -139,7 +158,7 @@ def kwp(tier):
                     elif ovl(ho, 16, do, o): hdst.append(it)
                 for tag, ko, kl in [('k0', do, 32), ('kE', do + o - 8, 16)]:
                     kdst.append(('a_%d_%s_%s' % (n, sg(d), tag), '%d, %d, %d, %d, %d, %d' % (n, L.s0, do, hdrp, ko, kl)))
-        grid = 'count in %s x delta in %s' % (alens, '{0, 16, -16, count+16}' if q else '{0, +-1, +-16, +-5, +-(count+16)}')
+        grid = 'count in %s x delta in %s' % (alens, ('{0, 16, -16, count+16}' if unwrap else '{0, 16, -16}') if q else '{0, +-1, +-16, +-5, +-(count+16)}')
         obs.append(Ob(name='c11_%s_key_in_dest' % fn, instances=kdst,
                       bound='key inside / across the end of the output region (header outside): %s x {key[32] at dest+0, key[16] across the end of dest}: %d concrete placements, all arena contents symbolic' % (grid, len(kdst)), **common))
         obs.append(Ob(name='c11_%s_hdr_in_dest' % fn, instances=hdst,
@@ -175,10 +194,10 @@ def aead(tier):
             common = dict(harness=H + fn + '.c', defs=['MAXN=%d' % maxn, 'MAXN2=%d' % maxn2, 'ASZ=%d' % L.asz, 'RSZ=%d' % (2 * maxn + maxn2 + 200)],
                           srcs=CORE + [LCL_UF, BLOCK, B + 'belt_ctr.c', B + ('belt_dwp.c' if mode == 'DWP' else 'belt_che.c'), 'src/math/ww.c'],
                           stub_files=uf + WIPE + POLY, stubs=['belt_block_uf_e', 'beltPolyMul -> uninterpreted GF(2^128) product', 'memWipe -> no-op'],
-                          unwind=maxn + 40, timeout=300, mem_gb=6, cbmc_extra=FS,
+                          unwind=maxn + 40, timeout=300, mem_gb=6, blob_exact=True, cbmc_extra=['--max-field-sensitivity-array-size', '512'],
                           unwind_rules=[(r'^(belt)\w+Step\w*\.\d+$', maxn // 16 + 4), (r'^c11_cp\.\d+$', L.asz + 2)],
                           funcs=[fn] + ['belt%s%s' % (mode, x) for x in ('Start', 'StepI', 'StepE', 'StepA', 'StepD', 'StepG', 'StepV')])
-            lens = [(0, 17), (1, 0), (16, 16), (17, 5), (33, 17)] if q else [(a, b) for a in (0, 1, 15, 16, 17, 31, 32, 33) for b in (0, 5, 16, 17)]
+            lens = [(17, 5), (33, 17)] if q else [(a, b) for a in (0, 1, 16, 17, 33) for b in (0, 17)] + [(32, 5), (15, 16)]
             inst = []
             for (n1, n2) in lens:
                 for d in (edge_deltas(n1) if q else all_deltas(n1)):
@@ -189,7 +208,7 @@ def aead(tier):
             # auxiliary buffers inside the output region / inside the inputs
             inst = []
             for (n1, n2) in ([(33, 17)] if q else [(17, 5), (33, 17)]):
-                for d in ([0, 16, -5] if q else [0, 1, -1, 16, -16, 5, -5, n1 + 16]):
+                for d in ([16] if q else [0, 1, -1, 16, -16, 5, -5, n1 + 16]):
                     do = L.s0 + d
                     P = dict(s2=L.src2p, m=macp, k=L.keyp, i=L.ivp, kl=32)
                     var = [('s2D0', dict(s2=do)), ('s2De', dict(s2=do + n1 - n2)), ('s2Dp', dict(s2=do + n1 - 8)), ('s2Dm', dict(s2=do - 8)), ('s2S', dict(s2=L.s0 + 3)),
@@ -209,7 +228,7 @@ def aead(tier):
                         inst.append(('a_%d_%d_%s_%s' % (n1, n2, sg(d), tag), '%d, %d, %d, %d, %d, %d, %d, %d, %d' % (n1, n2, L.s0, do, a['s2'], a['m'], a['k'], a['i'], a['kl'])))
             obs.append(Ob(name='c11_%s_aux' % fn, instances=inst,
                           bound='(count1, count2) in %s x delta in %s x {src2 at dest+0, at the end of dest, across the end, across the start, inside src1; iv at dest+0, across the end, src1+0; key at dest+0, across the end; src2+iv+key all inside dest; %s}: %d concrete placements, all arena contents symbolic'
-                                % ([(33, 17)] if q else [(17, 5), (33, 17)], '{0, 16, -5}' if q else '{0, +-1, +-16, +-5, count1+16}',
+                                % ([(33, 17)] if q else [(17, 5), (33, 17)], '{16}' if q else '{0, +-1, +-16, +-5, count1+16}',
                                    'mac (input) at dest+0, end of dest, across both edges, src1+0, inside src2' if unwrap else 'mac (output) over src2, key, iv, the part of src1 outside dest - never intersecting dest (excluded by belt.h)', len(inst)), **common))
     return obs
 
@@ -225,7 +244,7 @@ def digests(tier):
     def mk(fn, kind, srcs, stub_files, stubs, inst, bound, steps, blk=16, timeout=300, core=None):
         return Ob(name='c11_%s' % fn, harness=H + fn + '.c', defs=['MAXN=%d' % maxn, 'ASZ=%d' % L.asz, 'RSZ=%d' % (maxn + 260)], instances=inst,
                   srcs=(core if core is not None else BELT_CORE + [BLOCK]) + srcs, stub_files=stub_files + WIPE, stubs=stubs + ['memWipe -> no-op'],
-                  unwind=maxn + 40, timeout=timeout, mem_gb=6, cbmc_extra=FS,
+                  unwind=maxn + 40, timeout=timeout, mem_gb=6, blob_exact=True, cbmc_extra=['--max-field-sensitivity-array-size', '512'],
                   unwind_rules=[(r'^(belt|bash)\w+Step\w*\.\d+$', maxn // blk + 3), (r'^c11_cp\.\d+$', L.asz + 2), (r'^bashF\.\d+$', 26)], funcs=[fn] + steps, bound=bound)
 
     def outpos(n, olen, full):
@@ -236,34 +255,36 @@ def digests(tier):
 
     # beltMAC(mac[8], src, count, key, len)
     inst = []
-    lens = [0, 1, 15, 16, 17, 33]
+    lens = [0, 17, 33] if q else [0, 1, 15, 16, 17, 31, 32, 33]
     for n in lens:
-        for d in outpos(n, 8, (not q) or n == 17):
+        ds = outpos(n, 8, not q)
+        if q: ds = [d for d in ds if d in (-24, -8, -7, -1, 0, 1, 16, n - 8, n - 7, n - 1, n, n + 16)]
+        for d in ds:
             inst.append(('o_%d_%s' % (n, sg(d)), '%d, 32, %d, %d, %d, 0' % (n, L.s0, L.s0 + d, L.keyp)))
-    for n in [17, 33]:
+    for n in ([33] if q else [17, 33]):
         for kl in (16, 24, 32):
             for tag, oo, ko in [('mK0', L.keyp, L.keyp), ('mKe', L.keyp + kl - 8, L.keyp), ('mKx', L.keyp + kl - 4, L.keyp), ('mKb', L.keyp - 4, L.keyp),
                                 ('kS', L.s0 + 5, L.s0 + 1), ('kSm', L.s0, L.s0 + n - 8)]:
                 inst.append(('k_%d_%d_%s' % (n, kl, tag), '%d, %d, %d, %d, %d, 0' % (n, kl, L.s0, oo, ko)))
     obs.append(mk('beltMAC', 'MAC', [B + 'belt_mac.c'], UFE, ['belt_block_uf_e'], inst,
-                  'count in %s x mac at src + d, d in %s; plus count in {17, 33} x key length 16/24/32 x {mac at key+0, last 8 octets of key, across both ends of key; key inside src with mac inside both}: %d concrete placements, all arena contents symbolic'
-                  % (lens, 'the edge set {-(8+16), -8, -7, -17..-15, -1, 0, 1, 15..17, count-8, count-7, count-1, count, count+16} and EVERY d in [-24, count+16] for count = 17' if q else 'EVERY value of [-24, count+16]', len(inst)),
+                  'count in %s x mac at src + d, d in %s; plus count in {33} (thorough: {17, 33}) x key length 16/24/32 x {mac at key+0, last 8 octets of key, across both ends of key; key inside src with mac inside both}: %d concrete placements, all arena contents symbolic'
+                  % (lens, 'the edge set {-24, -8, -7, -1, 0, 1, 16, count-8, count-7, count-1, count, count+16}' if q else 'EVERY value of [-24, count+16]', len(inst)),
                   ['beltMACStart', 'beltMACStepA', 'beltMACStepG']))
     # beltHash(hash[32], src, count)
     inst = []
-    lens = [0, 1, 32, 33] if q else [0, 1, 31, 32, 33, 47, 48]
+    lens = [0, 33] if q else [0, 1, 32, 33, 48]
     for n in lens:
         ds = outpos(n, 32, not q)
-        if q: ds = [d for d in ds if d in (-48, -32, -31, -16, -1, 0, 1, 16, n - 32, n - 31, n - 1, n, n + 16)]
+        if q: ds = [d for d in ds if d in (-48, -31, -1, 0, 1, 16, n - 31, n - 1, n + 16)]
         for d in ds:
             inst.append(('o_%d_%s' % (n, sg(d)), '%d, 0, %d, %d, %d, 0' % (n, L.s0, L.s0 + d, L.keyp)))
     obs.append(mk('beltHash', 'HASH', [B + 'belt_hash.c', B + 'belt_compr.c'], UFE, ['belt_block_uf_e'], inst,
                   'count in %s x hash at src + d, d in %s: %d concrete placements, all arena contents symbolic'
-                  % (lens, '{-48, -32, -31, -16, -1, 0, 1, 16, count-32, count-31, count-1, count, count+16}' if q else 'EVERY value of [-48, count+16]', len(inst)),
+                  % (lens, '{-48, -31, -1, 0, 1, 16, count-31, count-1, count+16}' if q else 'EVERY value of [-48, count+16]', len(inst)),
                   ['beltHashStart', 'beltHashStepH', 'beltHashStepG'], blk=32))
     # beltHMAC(mac[32], src, count, key, len): ~40 s per placement (C10 measurement) -> few placements in quick
     inst = []
-    pl = [(0, 32, 0, 'S'), (33, 32, 1, 'S'), (33, 32, 0, 'K'), (17, 40, 5, 'K')] if q else \
+    pl = [(0, 32, 0, 'K'), (33, 32, 1, 'S'), (17, 40, 5, 'K')] if q else \
          [(n, kl, d, w) for n in (0, 17, 33) for kl in (16, 32, 40) for (d, w) in ((0, 'S'), (1, 'S'), (-5, 'S'), (n - 8, 'S'), (0, 'K'), (kl - 8, 'K'), (-8, 'K'))]
     for n, kl, d, w in pl:
         inst.append(('o_%d_%d_%s%s' % (n, kl, w, sg(d)), '%d, %d, %d, %d, %d, 0' % (n, kl, L.s0, (L.s0 if w == 'S' else L.keyp) + d, L.keyp)))
@@ -272,27 +293,27 @@ def digests(tier):
                   ['beltHMACStart', 'beltHMACStepA', 'beltHMACStepG'], blk=32, timeout=600))
     # bashHash(hash[l/4], l, src, count)
     inst = []
-    pl = [(128, 0), (128, 33), (256, 5)] if q else [(128, 0), (128, 33), (192, 48), (256, 5), (256, 48)]
+    pl = [(128, 33), (256, 5)] if q else [(128, 0), (128, 33), (192, 48), (256, 5), (256, 48)]
     for l, n in pl:
         ds = outpos(n, l // 4, False)
-        if q: ds = [d for d in ds if d in (-(l // 4), -1, 0, 1, n - l // 4, n - 1, n + 16)]
+        if q: ds = [d for d in ds if d in (-(l // 4) + 1, -1, 0, 1, n - 1, n + 16)]
         for d in ds:
             inst.append(('o_%d_%d_%s' % (l, n, sg(d)), '%d, %d, %d, %d, %d, 0' % (n, l, L.s0, L.s0 + d, L.keyp)))
     obs.append(mk('bashHash', 'BASH', ['src/crypto/bash/bash_hash.c'], ['stubs/bashf_uf.c'], ['bashf_uf'], inst,
-                  '(l, count) in %s x hash at src + d, d in %s: %d concrete placements, all arena contents symbolic' % (pl, '{-l/4, -1, 0, 1, count-l/4, count-1, count+16}' if q else 'the edge set', len(inst)),
+                  '(l, count) in %s x hash at src + d, d in %s: %d concrete placements, all arena contents symbolic' % (pl, '{-l/4+1, -1, 0, 1, count-1, count+16}' if q else 'the edge set', len(inst)),
                   ['bashHashStart', 'bashHashStepH', 'bashHashStepG'], blk=64, core=CORE))
     # beltKRP(dest[m], m, src[n], n, level[12], header[16])
     inst = []
     lvp, hdp = L.keyp, L.aux2
-    for (m, n) in ([(16, 16), (16, 32), (24, 32), (32, 32)] if q else [(16, 16), (16, 24), (24, 24), (16, 32), (24, 32), (32, 32)]):
-        for d in ([-(m + 16), -m + 1, -1, 0, 1, n - m, n - 1, n + 16] if q else range(-(m + 16), n + 17)):
+    for (m, n) in ([(16, 16), (24, 32)] if q else [(16, 16), (16, 24), (24, 24), (16, 32), (24, 32), (32, 32)]):
+        for d in ([-m + 1, -1, 0, 1, n - 1] if q else range(-(m + 16), n + 17)):
             inst.append(('o_%d_%d_%s' % (m, n, sg(d)), '%d, %d, %d, %d, %d, %d' % (n, m, L.s0, L.s0 + d, lvp, hdp)))
         for tag, oo, lo, ho in [('dL', lvp, lvp, hdp), ('dLx', lvp + 4, lvp, hdp), ('dH', hdp, lvp, hdp), ('dHx', hdp - 8, lvp, hdp),
                                 ('lhS', L.s0 + n + 16, L.s0, L.s0 + 4), ('all', L.s0, L.s0 + 2, L.s0)]:
             inst.append(('x_%d_%d_%s' % (m, n, tag), '%d, %d, %d, %d, %d, %d' % (n, m, L.s0, oo, lo, ho)))
     obs.append(mk('beltKRP', 'KRP', [B + 'belt_krp.c', B + 'belt_compr.c'], UFE, ['belt_block_uf_e'], inst,
                   '(m, n) in %s x {dest at src + d, d in %s; dest over level, across the end of level, over header, across the start of header; level and header inside src; dest == src == header with level inside}: %d concrete placements, all arena contents symbolic'
-                  % ('{(16,16),(16,32),(24,32),(32,32)}' if q else 'every admissible pair', '{-(m+16), -m+1, -1, 0, 1, n-m, n-1, n+16}' if q else 'EVERY value of [-(m+16), n+16]', len(inst)),
+                  % ('{(16,16),(24,32)}' if q else 'every admissible pair', '{-m+1, -1, 0, 1, n-1}' if q else 'EVERY value of [-(m+16), n+16]', len(inst)),
                   ['beltKRPStart', 'beltKRPStepG', 'beltCompr']))
     return obs
 
@@ -303,33 +324,43 @@ def helpers(tier):
     q = tier == 'quick'
     obs = []
 
-    def mk(name, kind, maxn, inst, bound, srcs, funcs, extra_defs=(), unwind=None):
+    def mk(name, kind, maxn, inst, bound, srcs, funcs, extra_defs=(), unwind=None, rules=()):
         asz = 3 * maxn + 80 if kind != 'JOIN' else 5 * maxn + 40
         return Ob(name=name, harness=H + 'helpers.c', defs=['T_' + kind, 'MAXN=%d' % maxn, 'ASZ=%d' % asz, 'RSZ=%d' % (2 * maxn + 64)] + list(extra_defs), instances=inst,
-                  srcs=srcs, unwind=unwind or (asz + 8), timeout=300, mem_gb=6, funcs=funcs, bound=bound)
-    nmax = 24 if q else 40
+                  srcs=srcs, unwind=unwind or (asz + 8), unwind_rules=list(rules), timeout=300, mem_gb=6, funcs=funcs, bound=bound)
+    nmax = 17 if q else 40
     inst = [('mv_%d' % n, '%d, %d, %d' % (n, -(n + 16), n + 16)) for n in range(0, nmax + 1)]
     obs.append(mk('c11_memMove', 'MOVE', nmax, inst, 'EVERY count in 0..%d x EVERY delta in [-(count+16), count+16] (one query per count, placements walked by a concrete loop), contents symbolic' % nmax,
                   ['src/core/mem.c'], ['memMove']))
-    jm = 4 if q else 6
+    jm = 3 if q else 6
     inst = [('j_%d_%d' % (a, b), '%d, %d' % (a, b)) for a in range(0, jm + 1) for b in range(0, jm + 1)]
     obs.append(mk('c11_memJoin', 'JOIN', jm, inst,
                   'EVERY (count1, count2) in 0..%d x 0..%d x EVERY src1 = dest + d1, d1 in [-(count1+1), count1+count2+1] x EVERY src2 = dest + d2, d2 in [-(count2+1), count1+count2+1] (src1 and src2 may intersect each other as well; all five branches of memJoin incl. goto repeat are reached), contents symbolic' % (jm, jm),
                   ['src/core/mem.c'], ['memJoin', 'memMove', 'memIsDisjoint2'], unwind=80))
     tags = [('04', '0x04'), ('1F1F', '0x1F1F'), ('1F8100', '0x1F8100'), ('bad1F00', '0x1F00')]
-    lens = [0, 1, 2, 5, 16, 17] if q else list(range(0, 25))
-    inst = [('d_%s_%d' % (t, n), '%s, %d, %d, %d' % (c, n, -(n + 8 + 4), n + 8)) for t, c in tags for n in lens]
-    big = [127, 128] if q else [127, 128, 129, 255, 256]
+    lens = [0, 1, 2, 5, 16] if q else list(range(0, 25))
+    inst = [('d_%s_%d' % (t, n), '%s, %d, %d, %d' % (c, n, -(n + 8 + 4), n + 8)) for t, c in (tags[:2] + tags[3:] if q else tags) for n in lens]
+    big = [128] if q else [127, 128, 129, 255, 256]
     bmax = max(big)
     inst_b = []
     for t, c in tags[:2]:
         for n in big:
             for lo, hi in ([(-(n + 12), -(n - 2)), (-9, 9), (n - 6, n + 8)] if q else [(-(n + 12), n + 8)]):
                 inst_b.append(('d_%s_%d_%s' % (t, n, sg(lo)), '%s, %d, %d, %d' % (c, n, lo, hi)))
-    obs.append(mk('c11_derEnc', 'DER', max(lens), inst, 'tag in {04, 1F1F, 1F8100, invalid 1F00} x EVERY len in %s x EVERY der = val + d, d in [-(len+12), len+8], contents symbolic' % lens,
+    obs.append(mk('c11_derEnc', 'DER', max(lens), inst, 'tag in {04, 1F1F, %sinvalid 1F00} x EVERY len in %s x EVERY der = val + d, d in [-(len+12), len+8], contents symbolic' % ('' if q else '1F8100, ', lens),
                   ['src/core/der.c', 'src/core/mem.c', 'src/core/util.c', 'src/core/u32.c'], ['derEnc', 'derTEnc', 'derLEnc']))
     obs.append(mk('c11_derEnc_longL', 'DER', bmax, inst_b, 'two- and three-octet L: tag in {04, 1F1F} x len in %s x der = val + d, d in %s, contents symbolic' % (big, '[-(len+12), -(len-2)] + [-9, 9] + [len-6, len+8]' if q else 'EVERY value of [-(len+12), len+8]'),
                   ['src/core/der.c', 'src/core/mem.c', 'src/core/util.c', 'src/core/u32.c'], ['derEnc', 'derTEnc', 'derLEnc']))
+    tl = [1, 2, 3, 9] if q else list(range(1, 18))
+    tl = [1, 2, 3] if q else [1, 2, 3, 4, 8]
+    # the encoder strips leading zero octets: the copy length becomes symbolic -> one placement per query, small len
+    inst = [('u_%d_%s' % (n, sg(d)), '0x02, %d, %d, %d, %d' % (n, 8 * n, d, d)) for n in tl for d in ([-(n + 4), -2, -1, 0, 1, 2, n + 3] if q else range(-(n + 4), n + 4))]
+    obs.append(mk('c11_derTUINTEnc', 'DERT', max(tl), inst, 'tag 02 x EVERY len in %s x der = val + d, d in %s, contents symbolic (incl. leading zero octets / high bit set)' % (tl, '{-(len+4), -2, -1, 0, 1, 2, len+3}' if q else 'EVERY value of [-(len+4), len+3]'),
+                  ['src/core/der.c', 'src/core/mem.c', 'src/core/util.c', 'src/core/u32.c'], ['derTUINTEnc', 'derTLEnc', 'memCopy', 'memRev'], unwind=12, rules=[(r'^c11_cp\.\d+$', 100)]))
+    bl = [(0, 0), (1, 1), (1, 8), (2, 13), (9, 72)] if q else [((b + 7) // 8, b) for b in range(0, 80)]
+    inst = [('b_%d' % b, '0x03, %d, %d, %d, %d' % (n, b, -(n + 12), n + 8)) for n, b in bl]
+    obs.append(mk('c11_derTBITEnc', 'DERT', max(n for n, b in bl), inst, 'tag 03 x bit lengths %s x EVERY der = val + d, d in [-(octets+12), octets+8], contents symbolic' % ([b for n, b in bl] if q else '0..79'),
+                  ['src/core/der.c', 'src/core/mem.c', 'src/core/util.c', 'src/core/u32.c'], ['derTBITEnc', 'derTEnc', 'derLEnc'], extra_defs=['ENC_BIT']))
     for k2 in (False, True):
         inst = [('k_%d' % n, '%d, -48, 48' % n) for n in (16, 24, 32)]
         obs.append(mk('c11_beltKeyExpand2' if k2 else 'c11_beltKeyExpand', 'KEYX', 32, inst,
@@ -341,19 +372,30 @@ def helpers(tier):
 def obligations(tier):
     q = tier == 'quick'
     obs = []
+    # quick: a complete sweep of the shift for beltCBCEncr (count 17); the other modes call the same memMove(dest, src, count)
+    # first and get the edge shifts only (memMove itself is swept completely in c11_memMove); thorough: everything
+    def L(quick, thorough): return quick if q else thorough
     cts = [16, 17, 31, 32, 33, 47, 48]
     strm = [0, 1, 15, 16, 17, 31, 32, 33]
-    obs += cipher6('beltCBCEncr', 'belt_cbc.c', cts, 17, tier, UF, ['beltCBCStart', 'beltCBCStepE', 'memMove'])
-    obs += cipher6('beltCBCDecr', 'belt_cbc.c', cts, 17, tier, UF, ['beltCBCStart', 'beltCBCStepD', 'memMove'])
-    obs += cipher6('beltCFBEncr', 'belt_cfb.c', strm, 17, tier, UFE, ['beltCFBStart', 'beltCFBStepE', 'memMove'], aux_lens=[33] if q else [17, 33])
-    obs += cipher6('beltCFBDecr', 'belt_cfb.c', strm, 17, tier, UFE, ['beltCFBStart', 'beltCFBStepD', 'memMove'], aux_lens=[33] if q else [17, 33])
-    obs += cipher6('beltCTR', 'belt_ctr.c', strm, 17, tier, UFE, ['beltCTRStart', 'beltCTRStepE', 'memMove'], aux_lens=[33] if q else [17, 33])
-    obs += cipher6('beltBDEEncr', 'belt_bde.c', [16, 32, 48], 16, tier, UF, ['beltBDEStart', 'beltBDEStepE', 'memMove'])
-    obs += cipher6('beltBDEDecr', 'belt_bde.c', [16, 32, 48], 16, tier, UF, ['beltBDEStart', 'beltBDEStepD', 'memMove'])
-    obs += cipher6('beltSDEEncr', 'belt_sde.c', [32, 48], None, tier, UFE, ['beltSDEStart', 'beltSDEStepE', 'beltWBLStepE', 'memMove'], aux_lens=[32] if q else None)
-    obs += cipher6('beltSDEDecr', 'belt_sde.c', [32, 48], None, tier, UFE, ['beltSDEStart', 'beltSDEStepD', 'beltWBLStepD', 'memMove'], aux_lens=[32] if q else None)
+    blk = [16, 32, 48]
+    obs += cipher6('beltCBCEncr', 'belt_cbc.c', L([16, 17, 33, 48], cts), 17, tier, UF, ['beltCBCStart', 'beltCBCStepE', 'memMove'], aux_lens=L([33], None))
+    obs += cipher6('beltCBCDecr', 'belt_cbc.c', L([17, 32, 48], cts), L(None, 17), tier, UF, ['beltCBCStart', 'beltCBCStepD', 'memMove'], aux_lens=L([32], None))
+    obs += cipher6('beltCFBEncr', 'belt_cfb.c', L([0, 1, 17, 33], strm), L(None, 17), tier, UFE, ['beltCFBStart', 'beltCFBStepE', 'memMove'], aux_lens=L([33], [17, 33]))
+    obs += cipher6('beltCFBDecr', 'belt_cfb.c', L([1, 16, 33], strm), L(None, 17), tier, UFE, ['beltCFBStart', 'beltCFBStepD', 'memMove'], aux_lens=L([33], [17, 33]))
+    obs += cipher6('beltCTR', 'belt_ctr.c', L([0, 1, 17, 33], strm), L(None, 17), tier, UFE, ['beltCTRStart', 'beltCTRStepE', 'memMove'], aux_lens=L([33], [17, 33]))
+    obs += cipher6('beltBDEEncr', 'belt_bde.c', L([16, 48], blk), L(None, 16), tier, UF, ['beltBDEStart', 'beltBDEStepE', 'memMove'], aux_lens=L([32], None))
+    obs += cipher6('beltBDEDecr', 'belt_bde.c', L([32], blk), L(None, 16), tier, UF, ['beltBDEStart', 'beltBDEStepD', 'memMove'], aux_lens=L([32], None))
+    obs += cipher6('beltSDEEncr', 'belt_sde.c', L([32], [32, 48]), None, tier, UFE, ['beltSDEStart', 'beltSDEStepE', 'beltWBLStepE', 'memMove'], aux_lens=L([32], None))
+    obs += cipher6('beltSDEDecr', 'belt_sde.c', L([32], [32, 48]), None, tier, UFE, ['beltSDEStart', 'beltSDEStepD', 'beltWBLStepD', 'memMove'], aux_lens=L([32], None))
     obs += kwp(tier)
     obs += aead(tier)
     obs += digests(tier)
     obs += helpers(tier)
+    for o in obs:   # one entry point per distinct placement
+        seen = set(); u = []
+        for e in o['instances']:
+            if e[0] not in seen: seen.add(e[0]); u.append(e)
+        if len(u) != len(o['instances']):
+            o['bound'] = o['bound'].replace('%d concrete placements' % len(o['instances']), '%d concrete placements' % len(u))
+            o['instances'] = u
     return obs
